@@ -60,3 +60,7 @@ CHECKS['C10'] = ('model_checking',
     'histories: explicit enumeration of every API call sequence of length <= 2 over 19 calls (compile/parse/tatsu.parse/codegen/generated parser/persistent model with asmodel, semantics, name, ignorecase, start, failing inputs, a second grammar reusing a class name) and length 3 over 9 (quick) / all 19 (thorough) calls, each history in a pristine forked child and each call compared with the same call run first; model and config snapshots before/after parses; schedules: stateless exploration under a baton thread scheduler (sys.settrace line events in the functions that touch shared state) of 2-3 threads parsing on one shared never-optimised model, all interleavings up to 2 preemptions, each compared with the sequential result',
     'trusted: forked child of an interpreter that only imported tatsu = fresh process; the whitelist of functions with shared state; preemption bound 2',
     'explicit-state exploration of API histories + stateless preemption-bounded schedule exploration on the real code')
+CHECKS['C07'] = ('model_checking',
+    'differential conformance by bounded exhaustive enumeration: 9 type-annotated grammar templates (single type, Derived::Base chains up to 3 deep, builtin types, rules without names, nodes in closures/optionals/joins/lists, overrides, untyped rules in between) x all inputs up to length 5/7; the model-building parse is compared with the same parse under a semantics that tags typed rules (isomorphism of classes, bases, attributes, values), children/parent closure on every node, three walkers must visit every node exactly once and dispatch on declared bases, node parseinfo (rule, span, line, text), and the classes of the generated model module must give an isomorphic tree',
+    'trusted: the tagging reference semantics (same action hook the model builder uses); class names unique per template (registry histories are C10)',
+    'exhaustive enumeration of programs x inputs, differential between implementations with structural invariants on every state')
